@@ -394,3 +394,18 @@ def structtag_values(draw, t):
     for name in t["bits"]:
         v[name] = draw(st.booleans())
     return v
+
+
+def boundary_string_cases():
+    """(type, value) pairs at the length boundaries of every string type's prefix (deterministic)"""
+    out = []
+    lens = [0, 1, 127, 128, 255, 256, 32767, 32768, 40000, 65534, 65535]
+    for name, maxlen in (("SHORT_STRING", 255), ("STRING", 65535), ("STRING2", 65535), ("LOGIX_STRING", 70000)):
+        for n in lens + ([70000] if name == "LOGIX_STRING" else []):
+            if n <= maxlen:
+                ch = "\u00e9\u0101A"[0 if name != "STRING2" else 1]
+                out.append((T(name), ("A" * (n - 1) + ch) if n else ""))
+    for cs in (1, 2, 4):
+        for n in lens:
+            out.append((T("STRINGN", cs=cs), ("b" * (n - 1) + {1: "z", 2: "\u0101", 4: "\U0001F600"}[cs]) if n else ""))
+    return out
